@@ -71,7 +71,36 @@ def plan(tier):
     return "Plan", n, drift
 
 
-MODULES = [prompt, plan]
+def highlight(tier):
+    """spec/Highlight.tla (the line editor's colouring transcribed over the tokenizer's tokens) - every short line over quotes,
+    operators, blanks, a multi-byte character and the letters of `cd`"""
+    drift = []
+    cases = []
+    cfg = "MCHighlight_5" if tier == "quick" else "MCHighlight_6"
+    r = run_tlc("MCHighlight", cfg, on_replay=cases.append, keep_replays=False, timeout=6000, xmx="24g", coverage=False)
+    if r.violation:
+        raise ToolError("the highlighter's transcription violates Partition / OnlyFirstWords (%s):\n%s" % (cfg, r.violation[:2500]))
+    lines = [chars(list(c["s"])) for c in cases]
+    res = inproc_map("highlight", [{"id": i, "line": ln} for i, ln in enumerate(lines)], timeout=30)
+    for c, ln, o in zip(cases, lines, res):
+        if "ranges" not in o:
+            drift.append((ln, c["ranges"], {k: o[k] for k in o if k != "id"}))
+            continue
+        # byte offsets -> character positions (a boundary inside a character is a difference by itself)
+        b2c = {}
+        pos = 0
+        for i, ch in enumerate(ln):
+            b2c[pos] = i
+            pos += len(ch.encode("utf-8"))
+        b2c[pos] = len(ln)
+        got = [[b2c.get(a, -1), b2c.get(b, -1), g] for a, b, g in o["ranges"]]
+        if got != [list(x) for x in c["ranges"]]:
+            drift.append((ln, c["ranges"], got))
+    log("[extras] Highlight %s: %d lines, %d distinct states" % (cfg, len(cases), r.distinct))
+    return "Highlight", len(cases), drift
+
+
+MODULES = [prompt, plan, highlight]
 
 
 def main():
